@@ -273,3 +273,22 @@ def apiDelete (l : Loader) (segs : List (Nat × List Entry)) : Except Err Loader
   run l (segs.map (fun (fi, seg) => Op.detach fi seg))
 
 end Capella.Index
+
+namespace Capella.Index
+
+/-- the post-`yield` part of `MelodyLoader.new_uuid` as repaired: if the id is still only reserved,
+either the caller never used it (file types that index ids: roll back and raise), or the file type
+does not index ids at all (`.afm`: just drop the reservation). `indexesIds` = the suffix has id types. -/
+def newUuidExit (f : Frag) (indexesIds : Bool) (k : String) : Except Err Frag :=
+  match dget f.idc k with
+  | some none => if indexesIds then .error .runtime else .ok (idcacheRemoveKey f k)
+  | _ => .ok f
+
+/-- the exit check as it was: `self[new_uuid] is None` — `__getitem__` raises KeyError for a
+reserved id, so the check never sees `None`; nothing is cleaned up -/
+def newUuidExitOld (f : Frag) (k : String) : Except Err Frag :=
+  match fragGet f k with
+  | some _ => .ok f
+  | none => .error .keyError
+
+end Capella.Index
